@@ -5,7 +5,7 @@
    are root stores, cascade deletes follow a strictly increasing store rank, i.e. no cascade cycle). *)
 From Coq Require Import List NArith Bool Permutation.
 From Storage Require Import Base.Bytes Store.Model Store.Events Store.EventProofs Store.EventAnyProofs
-  Store.TxHooks Store.TxHooksProofs.
+  Store.TxHooks Store.TxHooksProofs Store.EventsMulti Store.EventMultiProofs.
 Import ListNotations.
 
 (* A committed transaction delivers, as a multiset, exactly the expected events: for each successful
@@ -112,6 +112,22 @@ Theorem listener_invoked_exactly_once : forall sch rkl fuel st t rs st' evs l ty
   Forall (fun p => snd p = et_is_async ty) (delivered_to l evs).
 Proof. exact listener_invoked_exactly_once_lemma. Qed.
 Print Assumptions listener_invoked_exactly_once.
+
+(* a registration that names SEVERAL change types in one Add*Listener call (any of the four filtering styles, the
+   types in any order, every change kind at most once - EntityCreated and EntityCreatedAsync are one kind): for a
+   committed transaction it is notified exactly as often as the expected multiset holds events on its store whose
+   change kind it names - once per committed change, never for a kind it does not name - and every notification
+   runs in the mode (sync / async) of the entry of that kind *)
+Theorem listener_multi_type_invoked_exactly_once : forall sch rkl fuel st t rs st' evs l e,
+  wf_events_b sch rkl = true ->
+  run_tx sch fuel st t = (rs, true, st', evs) ->
+  style_filters (l_style l) = true -> kinds_distinct (l_types l) = true ->
+  count_ev e (map fst (delivered_to l evs)) =
+  (if str_eqb (ev_store e) (l_store l) && registers l (ev_change e)
+   then expected_events sch (tx_trace sch fuel st t) e else 0%nat) /\
+  Forall (fun p => registered_mode l (ev_change (fst p)) = Some (snd p)) (delivered_to l evs).
+Proof. exact listener_multi_invoked_exactly_once_lemma. Qed.
+Print Assumptions listener_multi_type_invoked_exactly_once.
 
 (* constraints (typed and untyped) see every event of their store once *)
 Theorem constraint_invoked_exactly_once : forall sch rkl fuel st t rs st' evs l e,
